@@ -77,7 +77,7 @@ func H_C19_Aggregation(v *sym.V) {
 			}
 			links = append(links, errors.IssueLink{IssueURL: u, Detail: "d"})
 		case 3:
-			k := v.Str(name+".key", sym.REGNN, 1, 1)
+			k := v.Str(name+".key", sym.REGNN, 0, 1) // the empty key is a key too
 			e = errors.WithTelemetry(e, k, "fixed")
 			keys = append(keys, k, "fixed")
 		case 4:
